@@ -41,13 +41,16 @@ PROPS["C02"] = dict(
 PROPS["C15"] = dict(
     level="proof",
     runs=[dict(bin="c15")],
-    quick=dict(n=3000, shards=16),
-    thorough=dict(n=120000, shards=128, run_timeout=3000, coq_case_timeout=3000),
+    quick=dict(n=4500, shards=16),
+    thorough=dict(n=180000, shards=128, run_timeout=3000, coq_case_timeout=3000),
     trusted_base=[
-        "model coq/C15/Model.v of api/src/source.rs, source/{filter,map,filter_map,convert}.rs and of insert_all/remove_all counting in api/src/{graph,dataset}.rs (hand-written, continuation style as the code)",
-        "parsers are modelled as a source that yields Ok statements up to the syntax error, then Err; the N-Triples serializer and the capacity-limited store are consumers whose failure is a sink error value",
+        "model coq/C15/Model.v of api/src/source.rs, source/{filter,map,filter_map,convert}.rs and of insert_all/remove_all counting in api/src/{graph,dataset}.rs (hand-written, continuation style as the code); coq/C15/Generic.v is the same model for any item / error types (GenericProofs.generic_is_model_*: Model.v is its instance N)",
+        "parser end: coq/C15/ParserSource.v transcribes the control flow of sophia_rio's StrictRio{Triple,Quad}Source::try_for_some_item and of rio_turtle 0.8.6 N{Triples,Quads}Parser::parse_step / parse_{triple,quad}_line / is_end / LookAheadByteReader::new (one line per step, synthetic first line, error position = current line, consume_line_end) by hand; the reading of the terms of ONE line is not transcribed from rio: it is the reference reader of coq/C03/Model.v (W3C grammar), and every theorem holds for an arbitrary line reader; agreement with rio on the generated documents is what the correspondence run checks",
+        "serializer end: coq/C15/SerializerSink.v transcribes write_term / write_triple / quoted_string of turtle/src/serializer/nt.rs and the closures of serialize_triples / serialize_quads as the sequence of buffers passed to write_all, std::io::Write::write_all (without ErrorKind::Interrupted retries) and an io::Write probe driven by a policy (bytes accepted per call); SerializerProofs.stmt_chunks_concat ties the buffers to C03's byte-level writer",
+        "the capacity-limited store is a consumer whose failure is a sink error value",
     ],
-    assumptions=["closures given to adapters are pure functions of the item (the harness uses such closures)"],
+    assumptions=["closures given to adapters are pure functions of the item (the harness uses such closures)",
+                 "documents are valid UTF-8 (the parser is fed from &str / String bytes); ErrorKind::Interrupted is not modelled for writers"],
 )
 
 PROPS["C19"] = dict(
@@ -71,9 +74,10 @@ PROPS["C07"] = dict(
     trusted_base=[
         "model coq/C07/Model.v of isomorphism/src/{dataset,iso_term,hash}.rs (hand-written); the 64-bit hash is a parameter of every theorem (any function of what the code feeds to the hasher), so the theorems hold for SipHash and for the FNV stand-in used to RUN the model",
         "sort_unstable is modelled by insertion sort; theorem gsort_perm_eq shows the sorted key sequence is independent of the sorting algorithm",
-        "termination of the refinement loop is NOT proved for arbitrary hash functions (the real loop is unbounded; the model uses fuel and answers None when exhausted)",
+        "termination of the refinement loop (the real loop is unbounded; the model uses fuel and answers None when exhausted): PROVED to stop within 2 * #blank nodes + 1 rounds under the decidable condition loop_mono (the number of colour classes never decreases along the run; implied by loop_no_merge = no collision of XOR-combined digests merges two classes), REFUTED for arbitrary hash functions (termination_refuted_for_adversarial_hash, and termination_refuted_for_view_injective_hash: even a hash injective on every view that occurs); for the real SipHash the condition is not proved, it is evaluated with the FNV stand-in on every 16th case (iso_tight_ok: model run with exactly the proved number of rounds)",
+        "entry points: model coq/C07/EntryModel.v of isomorphic_datasets' error channel (prepare_dataset = collect::<Result<Vec,_>>, SourceError before SinkError) and of isomorphic_graphs (= isomorphic_datasets on GraphAsDataset, no pre-check of its own) (hand-written); fallible datasets/graphs are lists of results; the harness compares result, error side/code and the number of items pulled from each argument",
     ],
-    assumptions=["terms are well-formed (C02's wf)", "Term::hash is a function of the Term::eq class (C02)"],
+    assumptions=["terms are well-formed (C02's wf)", "Term::hash is a function of the Term::eq class (C02)", "collect::<Result<Vec<_>,_>>() stops polling the iterator at its first Err (observed by the harness: pull counts)"],
 )
 
 import extras  # noqa: E402
@@ -153,7 +157,7 @@ PROPS["C17"] = dict(
 PROPS["C01"] = dict(
     level="proof",
     runs=[dict(bin="c01")],
-    quick=dict(n=600, shards=16),
+    quick=dict(n=1000, shards=16),
     thorough=dict(n=60000, shards=128, run_timeout=3000, coq_case_timeout=3000, args=["--u16-full"]),
     trusted_base=[
         "model coq/C01/Model.v of inmem/src/{index,graph,dataset}.rs, {graph,dataset}/_iter.rs, the inherited default methods of api/src/{graph,dataset}.rs and the std-collection stores of _foreign_impl.rs (hand-written, arm by arm)",
